@@ -261,6 +261,9 @@ pub(crate) mod verif {
     pub fn message_prefix_errors(inp: u32) -> u32 {
         super::message_prefix_errors(inp)
     }
+    pub fn max_burst_length() -> usize {
+        super::Framer::MAX_BURST_LENGTH
+    }
 }
 
 #[cfg(test)]
